@@ -419,6 +419,43 @@ func newFloat(eqComm, addComm, mulComm bool, opt bool) *funcGen.FunctionGenerato
 	return g
 }
 
+var floatImpl = map[string]func(a, b float64) (float64, error){
+	"=": func(a, b float64) (float64, error) { return fromBool(a == b), nil },
+	"<": func(a, b float64) (float64, error) { return fromBool(a < b), nil },
+	">": func(a, b float64) (float64, error) { return fromBool(a > b), nil },
+	"+": func(a, b float64) (float64, error) { return a + b, nil },
+	"-": func(a, b float64) (float64, error) { return a - b, nil },
+	"*": func(a, b float64) (float64, error) { return a * b, nil },
+	"/": func(a, b float64) (float64, error) { return a / b, nil },
+	"^": func(a, b float64) (float64, error) { return math.Pow(a, b), nil },
+}
+
+// floatOrders: the operators of example/minimal.go declared in other orders (= other priorities): the
+// prefix operator's binary twin first (lowest priority), the reversed table, a shuffled one.
+var floatOrders = [][]string{
+	{"-", "+", "*", "/", "^", "=", "<", ">"},
+	{"^", "/", "*", "-", "+", ">", "<", "="},
+	{"*", "-", "=", "+", "<", "/", ">", "^"},
+}
+
+// newFloatOrdered is newFloat with the operators declared in the given order ("=" not commutative).
+func newFloatOrdered(order []string, opt bool) *funcGen.FunctionGenerator[float64] {
+	g := funcGen.New[float64]().SetComfort(true).AddConstant("pi", math.Pi)
+	for _, op := range order {
+		g.AddSimpleOp(op, op == "+" || op == "*", floatImpl[op])
+	}
+	g.AddUnaryFunc("-", func(a float64) (float64, error) { return -a, nil }).
+		AddSimpleFunction("sqr", func(x float64) float64 { return x * x }).
+		SetToBool(func(c float64) (bool, bool) { return c != 0, true }).
+		SetNumberParser(parser2.NumberParserFunc[float64](func(n string) (float64, error) { return strconv.ParseFloat(n, 64) }))
+	if !opt {
+		g.SetOptimizer(nil)
+	}
+	return g
+}
+
+func orderedInstName(oi int, opt bool) string { return fmt.Sprintf("float-order/%d/opt=%v", oi, opt) }
+
 // evalFloat evaluates with the operators' own definitions; exact is false if any step is not exactly
 // representable (then the case is excluded: the property allows rounding differences from regrouping).
 func evalFloat(n *gx.Node, env map[string]float64) (v float64, r *big.Rat) {
@@ -578,7 +615,7 @@ func checkFloat(ctx *bex.Ctx, inst floatInst, n *gx.Node, src string) {
 			if inst.eqComm && inst.opt && hasEqChain(n) {
 				finding = "F02-eq-regroup-float"
 			}
-			ctx.Violate("wrong float value", map[string]any{"kind": "float", "inst": inst.name, "src": src, "a": as[0], "b": as[1]},
+			ctx.Violate("wrong float value", map[string]any{"kind": "float", "inst": inst.name, "src": src, "a": as[0], "b": as[1], "want": want},
 				fmt.Sprintf("%v = value of %s by the operators' own definitions", want, n), fmt.Sprint(got), finding)
 			return
 		}
@@ -753,6 +790,38 @@ func runFloat(ctx *bex.Ctx) {
 		return true
 	})
 	ctx.SpaceDone(fmt.Sprintf("all trees with <= %d operator nodes x commutative flags of + and * permuted (the operators that are associative-commutative) x optimizer on/off", maxFlags))
+
+	ctx.Space("float-declaration-orders")
+	type ordInst struct {
+		tab   *gx.Table
+		insts []floatInst
+	}
+	var ords []ordInst
+	for oi, order := range floatOrders {
+		o := ordInst{tab: &gx.Table{Bin: order, Un: []string{"-"}}}
+		for _, opt := range []bool{true, false} {
+			o.insts = append(o.insts, floatInst{name: orderedInstName(oi, opt), g: newFloatOrdered(order, opt), opt: opt})
+		}
+		ords = append(ords, o)
+	}
+	idx = 0
+	each(maxFlags, func(lv int, n *gx.Node) bool {
+		idx++
+		if !ctx.Mine(idx) {
+			return true
+		}
+		if ctx.Expired() {
+			return false
+		}
+		for _, o := range ords {
+			src := o.tab.Render(n, gx.RenderOpts{})
+			for _, in := range o.insts {
+				checkFloat(ctx, in, n, src)
+			}
+		}
+		return true
+	})
+	ctx.SpaceDone(fmt.Sprintf("all trees with <= %d operator nodes x the same operators declared in %d other orders %v (other priorities; the binary twin of the prefix operator first, the table reversed, shuffled) x optimizer on/off, rendered minimally under each table", maxFlags, len(floatOrders), floatOrders))
 }
 
 func replay(repro map[string]any) (string, bool) {
@@ -806,6 +875,23 @@ func replay(repro map[string]any) (string, bool) {
 	b, _ := repro["b"].(float64)
 	var vals []float64
 	var out string
+	if strings.HasPrefix(inst, "float-order/") {
+		var oi int
+		var opt bool
+		if _, err := fmt.Sscanf(inst, "float-order/%d/opt=%t", &oi, &opt); err != nil || oi >= len(floatOrders) {
+			return "unknown instance " + inst, true
+		}
+		want, ok := repro["want"].(float64)
+		f, _, err := newFloatOrdered(floatOrders[oi], opt).Generate(src, "a", "b")
+		if err != nil {
+			return err.Error(), true
+		}
+		if !ok {
+			return fmt.Sprintf("operators declared as %v, opt=%v: %q is accepted by Generate", floatOrders[oi], opt, src), false
+		}
+		v, err := f(funcGen.NewStack(a, b))
+		return fmt.Sprintf("operators declared as %v, opt=%v: %q with a=%v b=%v gives %v (err %v), the tree the text was rendered from gives %v", floatOrders[oi], opt, src, a, b, v, err, want), err != nil || v != want
+	}
 	for _, opt := range []bool{true, false} {
 		g := newFloat(true, true, true, opt)
 		f, _, err := g.Generate(src, "a", "b")
